@@ -686,7 +686,12 @@ impl<'a> Visitor for BytesVsRef<'a> {
                 r[*off] |= m;
             }
         }
-        ensure!(buf == r, format!("c05:bytes:{}", k), "{}: library encoding differs from the reference encoding: {} [{:?}]", k, first_diff(&buf, &r), v);
+        if buf != r {
+            // the order of children inside order-free containers is not prescribed by ISO/IEC 14496-12:
+            // compare again with the children of such containers sorted
+            let (cb, cr) = (crate::refmp4::parse::canonical(&buf), crate::refmp4::parse::canonical(&r));
+            ensure!(cb == cr, format!("c05:bytes:{}", k), "{}: library encoding differs from the reference encoding: {} [{:?}]", k, first_diff(&buf, &r), v);
+        }
         Ok(())
     }
 }
